@@ -22,7 +22,7 @@ import (
 // and simipc:// run the real transport/conn.go and connipc_posix.go over a
 // simulated net.Conn; the peer is the independent wirecodec).
 
-var wireLens = []int{0, 1, 2, 3, 4, 5, 7, 8, 9, 31, 32, 33, 63, 64, 65, 127, 128, 129, 255, 256, 257, 1023, 1024, 1025, 4095, 4096, 4097, 8191, 8192, 8193, 20000, 65535, 65536, 65537}
+var wireLens = []int{0, 1, 2, 3, 4, 5, 7, 8, 9, 31, 32, 33, 63, 64, 65, 127, 128, 129, 255, 256, 257, 495, 503, 504, 507, 511, 512, 513, 1023, 1024, 1025, 4095, 4096, 4097, 8191, 8192, 8193, 20000, 65535, 65536, 65537}
 
 func wireBody(n int, salt int) []byte {
 	b := make([]byte, n)
